@@ -28,11 +28,9 @@ func oracleC14(cx *CheckCtx, runs []*CaseRun) []Finding {
 			continue
 		}
 		cx.Stats.OracleCases++
-		for policy := 0; policy < 4; policy++ {
+		for _, policy := range []int{0, 1, 2, 5, -1} {
+			// (5 selects Group.Do for Group-form items and Do on a fresh statement)
 			fc := &FormChooser{r: NewRng(uint64(ci) + 99), Fixed: policy}
-			if policy == 3 {
-				fc.Fixed = -1
-			}
 			obs, bp := RunReal(cr.Case, fc, false)
 			if bp != "" {
 				fs = append(fs, Finding{Property: "C14", Shape: "form-build-panic", What: fmt.Sprintf("building with form policy %d panics: %s", policy, bp), Case: cr.Case.Text()})
